@@ -452,7 +452,10 @@ impl PartitionSampler {
         let total_stake: Stake = validators.iter().map(|v| v.stake).sum();
         let stake_per_bin = total_stake.div_ceil(num_bins as u64);
         let mut validators_random = validators;
+        #[cfg(not(feature = "verif-hooks"))]
         validators_random.shuffle(&mut rand::rng());
+        #[cfg(feature = "verif-hooks")]
+        validators_random.shuffle(&mut crate::verif::rng());
 
         // partition into bins
         let mut current_bin = 0;
